@@ -11,6 +11,7 @@ PROP = "C01"
 def body():
     S.store_check(
         PROP, model_cfgs=["StoreC01.cfg"], gen_cfgs=["StoreGenC01.cfg"], quick_n=700, thorough_n=30000,
+        oracle=True,
         kinds_note="bridge", invs=["RootsMirror", "ConsecutiveIdx", "ProofsVerify"],
         assumptions=["contract ground truth: the reference leaf packing / tree in harness/names is cross-checked against the real bridge contract by the C01 contract oracle run (see evidence.contract_oracle)"])
 
